@@ -13,6 +13,7 @@ Rules added to py2mini's fragment by RenderTranslator:
       Model/PrimsRender.v, from Render.v's rjust / ljust / py_str).
 Everything else fails closed with py2mini.Untranslatable."""
 import ast
+import enum
 import inspect
 import textwrap
 
@@ -20,14 +21,51 @@ from . import py2mini
 from .py2mini import Untranslatable, glist
 from .src_numberify import NumTranslator
 
-PRIMS = ('builtins.max', 'builtins.str')
+PRIMS = ('builtins.max', 'builtins.str', 'decimal.Decimal', 'beancount.core.display_context.DisplayContext')
+
+
+def enum_const(tr, e):
+    """T9: E.M / mod.E.M for a module-level enum.Enum class E whose member M has an int value -> that int, read from
+    the LIVE member; None when e is not such an expression"""
+    if not isinstance(e, ast.Attribute):
+        return None
+    d = tr.dotted(e)
+    if d is None:
+        return None
+    parts = d.split('.')
+    try:
+        obj = tr.resolve_free(parts[0])
+        for a in parts[1:-1]:
+            obj = getattr(obj, a)
+    except (Untranslatable, AttributeError):
+        return None
+    if isinstance(obj, type) and issubclass(obj, enum.Enum):
+        member = getattr(obj, parts[-1], None)
+        if not isinstance(member, obj) or type(member.value) is not int:
+            raise Untranslatable(f'{d} is not an int-valued member of the enum')
+        return tr.const(member.value)
+    return None
 
 
 class RenderTranslator(py2mini.FuncTranslator):
+    """F1 (f-strings), T9 (enum members as their int value) and, for the renderers that own other objects (Amount /
+    Position): A1 `self.func(args)` for the attributes named in VALUE_CALLABLES (objects that are values of the model,
+    here the number formatter built by prepare()) -> XPrim "apply" (self.func :: args);
+    A2 `self.<attr>.prepare()` -> XMethod (TSelf attr) "prepare" []: prepare() changes its receiver (it is in
+    SELF_ATTR_MUTATORS), the receiver is written back."""
+    VALUE_CALLABLES = {'func'}
+    SELF_ATTR_MUTATORS = {'prepare'}
+
     def expr(self, e):
         if isinstance(e, ast.JoinedStr):                                                   # F1
             parts = []
             for v in e.values:
+                if isinstance(v, ast.Constant) and isinstance(v.value, str):
+                    parts.append(self.const(v.value))
+                    continue
+                if isinstance(v, ast.FormattedValue) and v.conversion == -1 and v.format_spec is None:
+                    parts.append(f'(XPrim "format:plain" [{self.expr(v.value)}])')
+                    continue
                 if not isinstance(v, ast.FormattedValue) or v.conversion != -1 or not isinstance(v.format_spec, ast.JoinedStr):
                     raise Untranslatable('f-string part that is not {value:<align>{width}}')
                 spec = [x for x in v.format_spec.values if not (isinstance(x, ast.Constant) and x.value == '')]
@@ -37,6 +75,18 @@ class RenderTranslator(py2mini.FuncTranslator):
                     raise Untranslatable('f-string format spec that is not <align>{width}')
                 parts.append(f'(XPrim "format:{spec[0].value}" [{self.expr(v.value)}; {self.expr(spec[1].value)}])')
             return f'(XPrim "fstr" {glist(parts)})'
+        c = enum_const(self, e)                                                            # T9
+        if c is not None:
+            return c
+        if isinstance(e, ast.Call) and isinstance(e.func, ast.Attribute) and not e.keywords \
+                and not any(isinstance(a, ast.Starred) for a in e.args):
+            f = e.func
+            if isinstance(f.value, ast.Name) and f.value.id == self.self_name and f.attr in self.VALUE_CALLABLES:   # A1
+                return f'(XPrim "apply" {glist([self.expr(f)] + [self.expr(a) for a in e.args])})'
+            if isinstance(f.value, ast.Attribute) and isinstance(f.value.value, ast.Name) \
+                    and f.value.value.id == self.self_name and f.attr in self.SELF_ATTR_MUTATORS:                  # A2
+                return (f'(XMethod (TSelf {py2mini.gstr(f.value.attr)}) {py2mini.gstr(f.attr)} '
+                        f'{glist([self.expr(a) for a in e.args])})')
         return super().expr(e)
 
 
@@ -53,6 +103,21 @@ class HeadTranslator(RenderTranslator):
         self.fd.body = self.fd.body[:-1]
 
 
+class TailTranslator(RenderTranslator):
+    """__init__ without its first statement `super().__init__(ctx)` (the theorem runs the translated
+    ColumnRenderer.__init__ first)"""
+
+    def __init__(self, func, refs, prims=()):
+        super().__init__(func, refs, prims=prims)
+        body = [st for i, st in enumerate(self.fd.body)
+                if not (i == 0 and isinstance(st, ast.Expr) and isinstance(st.value, ast.Constant))]
+        want = ("Expr(value=Call(func=Attribute(value=Call(func=Name(id='super', ctx=Load()), args=[], keywords=[]), "
+                f"attr='{func.__name__}', ctx=Load()), args=[Name(id='{self.params[1]}', ctx=Load())], keywords=[]))")
+        if not body or ast.dump(body[0]) != want:
+            raise Untranslatable(f'{func.__qualname__}: first statement is not `super().{func.__name__}({self.params[1]})`')
+        self.fd.body = body[1:]
+
+
 class TopTranslator(NumTranslator):
     """the top-level functions render_rows / render_csv / render_text: NumTranslator's rules (truth in test positions,
     tuple-pattern comprehensions, ...) plus
@@ -67,6 +132,8 @@ class TopTranslator(NumTranslator):
                                          -> $new = []; for a, b in zip(X, L): <body>; $new.append(b)
                                             then  L = $new + L[len($new):]
       T8  a = b = c = e                  -> a = e; b = a; c = a
+      T9  E.M for a module-level enum.Enum class E whose member M has an int value (Align.LEFT) -> that int, read
+          from the LIVE member (the encoding of an Align value is its .value: Model/PrimsRender.v "attr:align")
       T6  C(args, k=v) for a class C declared primitive keeps its keywords in the primitive's name (py2mini does that);
           F1 (f-strings) as in RenderTranslator."""
 
@@ -94,6 +161,9 @@ class TopTranslator(NumTranslator):
     def expr(self, e):
         if isinstance(e, ast.JoinedStr):
             return RenderTranslator.expr(self, e)
+        c = enum_const(self, e)                                                                            # T9
+        if c is not None:
+            return c
         if isinstance(e, ast.Call) and isinstance(e.func, ast.Name) and e.func.id not in self.locals and not e.keywords:
             if e.func.id == 'isinstance' and len(e.args) == 2 and isinstance(e.args[1], ast.Name) \
                     and e.args[1].id not in self.locals and self.resolve_free(e.args[1].id) is list \
@@ -193,6 +263,23 @@ def spec_render():
     out.append(('render_rows_fn', qr.render_rows, 'beanquery.query_render.render_rows', 'top'))
     out.append(('render_csv_fn', qr.render_csv, 'beanquery.query_render.render_csv (without its unused **kwargs)', 'top'))
     out.append(('render_text_fn', qr.render_text, 'beanquery.query_render.render_text (without its unused **kwargs)', 'top'))
+    # (after the top-level functions, so that their opaque callables keep the numbers 0 and 1)
+    # Amount / Position renderers (bld-render3): every method; prepare without its last `return super().prepare()`,
+    # __init__ without its first `super().__init__(ctx)`
+    for cls in (qr.DecimalRenderer, qr.AmountRenderer, qr.PositionRenderer):
+        if cls.__mro__[1] is not qr.ColumnRenderer:
+            raise Untranslatable(f'{cls.__name__} no longer derives directly from ColumnRenderer')
+    out.append(('render_base_init', qr.ColumnRenderer.__init__, 'beanquery.query_render.ColumnRenderer.__init__', False))
+    out.append(('render_decimal_init_tail', qr.DecimalRenderer.__dict__['__init__'],
+                'beanquery.query_render.DecimalRenderer.__init__ without its first statement `super().__init__(ctx)`', 'tail'))
+    for cls, short in ((qr.AmountRenderer, 'amount'), (qr.PositionRenderer, 'position')):
+        q = f'beanquery.query_render.{cls.__name__}'
+        out.append((f'render_{short}_init_tail', cls.__dict__['__init__'],
+                    f'{q}.__init__ without its first statement `super().__init__(ctx)`', 'tail'))
+        out.append((f'render_{short}_update', cls.__dict__['update'], f'{q}.update', False))
+        out.append((f'render_{short}_prepare_head', cls.__dict__['prepare'],
+                    f'{q}.prepare without its last statement `return super().prepare()`', True))
+        out.append((f'render_{short}_format', cls.__dict__['format'], f'{q}.format', False))
     return out
 
 
@@ -204,6 +291,8 @@ class RenderGroup:
         for name, fn, origin, head in spec:
             if head == 'top':
                 tr = TopTranslator(fn, refs, prims=tuple(prims) + TOP_PRIMS, coq_name=name)
+            elif head == 'tail':
+                tr = TailTranslator(fn, refs, prims=prims)
             else:
                 tr = (HeadTranslator if head else RenderTranslator)(fn, refs, prims=prims)
             term, defaults = tr.translate()
